@@ -67,6 +67,11 @@ Q_C04sel == {[BaseQ EXCEPT !.items = <<it>>, !.where = w, !.join = j, !.jkeys = 
 ItemsJoinQ == {E(Fa(1)), E(Fb(2)), E(<<"bNR">>), <<"star">>, <<"bstar">>, <<"unnest", <<"flds", <<1, 2>>>>>>}
 Q_C04selQ == {[BaseQ EXCEPT !.items = <<it>>, !.where = w, !.join = j, !.jkeys = ks] :
                 it \in ItemsJoinQ, w \in {TRUEx, <<"isnone", Fb(1)>>}, j \in {"inner", "left", "strict"}, ks \in JoinKeys}
+\* three key pairs: every one must take part in the match
+Q_C04k3 == {[BaseQ EXCEPT !.items = <<E(Fa(1)), E(<<"bNR">>)>>, !.join = j, !.jkeys = ks] : j \in {"inner", "left", "strict"},
+              ks \in {<< <<1, 1>>, <<2, 2>>, <<3, 3>> >>, << <<3, 1>>, <<1, 3>>, <<2, 2>> >>, << <<1, 1>>, <<0, 0>>, <<3, 3>> >>}}
+\* None cells as join keys (None equals None)
+Q_C04none == {[BaseQ EXCEPT !.items = <<E(Fa(1)), E(Fb(2)), E(<<"bNR">>)>>, !.join = j, !.jkeys = ks] : j \in {"inner", "left", "strict"}, ks \in {<< <<1, 1>> >>, << <<2, 1>> >>, << <<1, 1>>, <<2, 2>> >>}}
 Q_C04pairs == {[BaseQ EXCEPT !.items = <<i1, i2>>, !.join = j, !.jkeys = << <<1, 1>> >>] :
                 i1 \in {E(Fa(1)), <<"astar">>, <<"unnest", <<"flds", <<1, 2>>>>>>}, i2 \in {E(Fb(2)), <<"bstar">>, E(<<"bNR">>)}, j \in {"inner", "left"}}
 
@@ -114,6 +119,16 @@ RhsSet  == {L(120), Fa(1), Fa(2), <<"cat", Fa(1), L(120)>>, <<"NU">>}
 AsgSet  == {<<k, r>> : k \in 1..3, r \in RhsSet}
 AsgLists == {s \in SeqsBetween(AsgSet, 1, 2) : \A i, j \in 1..Len(s) : i # j => s[i][1] # s[j][1]}
 Q_C05 == {[BaseQ EXCEPT !.kind = "update", !.assign = asg, !.where = w] : asg \in AsgLists, w \in {TRUEx, <<"nrodd">>, <<"eq", Fa(1), L(97)>>}}
+\* == inside a right-hand side, three assignments, two-digit targets
+Q_C05more == {[BaseQ EXCEPT !.kind = "update", !.assign = << <<1, <<"eq", Fa(1), Fa(2)>> >>, <<2, L(120)>> >>],
+              [BaseQ EXCEPT !.kind = "update", !.assign = << <<1, L(120)>>, <<2, <<"cat", Fa(1), Fa(3)>> >>, <<3, Fa(1)>> >>, !.where = <<"ne", Fa(1), Fa(2)>>],
+              [BaseQ EXCEPT !.kind = "update", !.assign = << <<3, Fa(2)>>, <<2, Fa(3)>>, <<1, <<"NU">> >> >>]}
+\* `, aN ==` inside a right-hand side; a top-level `or` in the WHERE of an UPDATE JOIN
+Q_C05tricky == {[BaseQ EXCEPT !.kind = "update", !.assign = << <<1, <<"idx0", Fa(2), <<"eq", Fa(1), Fa(2)>> >> >>, <<2, L(120)>> >>],
+                [BaseQ EXCEPT !.kind = "update", !.assign = << <<2, <<"idx0", L(120), <<"eq", Fa(2), L(97)>> >> >> >>, !.where = <<"or", <<"eq", Fa(1), L(98)>>, <<"eq", Fa(2), L(98)>> >>]}
+Q_C05joinor == {[BaseQ EXCEPT !.kind = "update", !.assign = << <<2, Fb(2)>> >>, !.join = j, !.jkeys = << <<1, 1>> >>, !.where = <<"or", <<"eq", Fa(2), L(97)>>, <<"eq", Fa(2), L(98)>> >>] : j \in {"inner", "left"}}
+Q_C05wide == {[BaseQ EXCEPT !.kind = "update", !.assign = << <<10, L(120)>>, <<1, Fa(10)>> >>],
+              [BaseQ EXCEPT !.kind = "update", !.assign = << <<1, Fa(11)>>, <<11, Fa(1)>> >>, !.where = <<"nrodd">>]}
 Q_C05swap == {[BaseQ EXCEPT !.kind = "update", !.assign = << <<1, Fa(2)>>, <<2, Fa(1)>> >>, !.where = w] : w \in {TRUEx, <<"nrodd">>}}
 Q_C05join == {[BaseQ EXCEPT !.kind = "update", !.assign = asg, !.where = w, !.join = j, !.jkeys = << <<1, 1>> >>] :
                 asg \in {<< <<2, Fb(2)>> >>, << <<1, L(120)>>, <<2, <<"NU">> >> >>, << <<3, Fb(1)>> >>},
@@ -121,9 +136,17 @@ Q_C05join == {[BaseQ EXCEPT !.kind = "update", !.assign = asg, !.where = w, !.jo
 
 \* ---------------------------------------------------------------- C07: header rules
 ItemsHdr == {E(Fa(1)), E(Fa(3)), E(NRx), E(<<"cat", Fa(1), L(120)>>), <<"star">>, <<"astar">>,
-             <<"as", E(Fa(2)), "zz">>, <<"as", E(<<"cat", Fa(1), Fa(2)>>), "Al_1">>, <<"unnest", <<"flds", <<1, 2>>>>>>}
+             <<"as", E(Fa(2)), "zz">>, <<"as", E(<<"cat", Fa(1), Fa(2)>>), "Al_1">>, <<"unnest", <<"flds", <<1, 2>>>>>>,
+             \* commas and brackets inside one item: a call, a literal, nested brackets; an alias after a literal that spells " as "
+             E(<<"bmax", Fa(1), Fa(2)>>), E(<<"lit", <<44, 91, 40>>>>), E(<<"idx0", Fa(2), Fa(1)>>), <<"as", E(<<"idx0", Fa(1), L(93)>>), "ix">>,
+             <<"as", E(<<"cat", Fa(1), <<"lit", <<32, 97, 115, 32, 113>>>> >>), "asx">>, <<"agg", "COUNT", <<"int", 1>> >>}
+\* (aggregates in the header lists need every other item to be constant per group: only lists the engine accepts are generated)
+HdrListOk(s) == (\E k \in 1..Len(s) : IsAggItem(s[k])) => (\A k \in 1..Len(s) : IsAggItem(s[k]) \/ s[k][1] = "as" \/ (s[k][1] = "e" /\ s[k][2][1] = "lit"))
 Q_C07 == {[BaseQ EXCEPT !.items = its, !.distinct = di, !.hastop = ht, !.top = 1] :
-            its \in {s \in SeqsBetween(ItemsHdr, 1, 2) : OneUnnest(s)}, di \in {"none", "uniq", "count"}, ht \in BOOLEAN}
+            its \in {s \in SeqsBetween(ItemsHdr, 1, 2) : OneUnnest(s) /\ ~(\E k \in 1..Len(s) : IsAggItem(s[k]))}, di \in {"none", "uniq", "count"}, ht \in BOOLEAN}
+\* an alias after an item whose top-level node is a boolean operator
+Q_C07bool == {[BaseQ EXCEPT !.items = its] : its \in {<< <<"as", E(<<"or", Fa(1), Fa(2)>>), "ob">>, E(Fa(2)) >>, << E(Fa(1)), <<"as", E(<<"and", Fa(1), Fa(2)>>), "nd">> >>, << <<"as", E(<<"eq", Fa(1), Fa(2)>>), "qq">> >>}}
+Q_C07agg == {[BaseQ EXCEPT !.items = its] : its \in {<< <<"agg", "COUNT", <<"int", 1>> >>, <<"star">> >>, << <<"as", <<"agg", "MAX", Fa(2)>>, "mx">>, <<"agg", "COUNT", <<"int", 1>> >> >>, << E(L(120)), <<"agg", "MIN", Fa(1)>> >>}}
 Q_C07join == {[BaseQ EXCEPT !.items = its, !.distinct = di, !.join = "left", !.jkeys = << <<1, 1>> >>] :
                 its \in SeqsBetween({E(Fa(1)), E(Fb(1)), E(Fb(3)), <<"bstar">>, <<"star">>, <<"as", E(Fb(2)), "bb">>}, 1, 2), di \in {"none", "count"}}
 
